@@ -100,8 +100,8 @@ def register(prop, run, KERNELS, C01_COVERS):
     prop("C03",
          quick=[run("C03_torn", covers=["done", "crash-inside-root-record", "crash-inside-data", "recovered-last-flush", "continued"], prior=1, inflight=1, vlen=1),
                 run("C03_junk", covers=["done", "recovered-last-flush", "continued"], prior=1, vlen=1, junkmin=0, junkmax=24),
-                run("C03_accept", covers=["done", "accepted", "rejected"], junkmax=2)],
-         thorough=[run("C03_accept", covers=["done", "accepted", "rejected"], junkmax=6),
+                run("C03_accept", covers=["done", "accepted", "rejected"], junkmax=1)],
+         thorough=[run("C03_accept", covers=["done", "accepted", "rejected"], junkmax=2, budget=3000),
                    run("C03_torn", covers=["done", "crash-inside-root-record", "crash-inside-data", "recovered-last-flush", "continued"], prior=2, inflight=2, vlen=2, budget=3000),
                    run("C03_torn", covers=["done", "crash-inside-root-record"], prior=1, inflight=1, vlen=7, budget=3000),
                    run("C03_junk", covers=["done", "recovered-last-flush", "continued"], prior=2, vlen=2, junkmin=0, junkmax=45, budget=3000)],
@@ -123,7 +123,7 @@ def register(prop, run, KERNELS, C01_COVERS):
 
     prop("C10",
          quick=[run("C10_hist", covers=["done"], store=0, k=3, snaps=1, opmask=mask(0, 1, 4, 6, 7, 8, 10, 11, 12)),
-                run("C10_hist", covers=["done"], store=0, k=4, snaps=1, opmask=mask(0, 4, 6, 8, 12))],
+                run("C10_hist", covers=["done"], store=0, k=3, snaps=1, init=1, opmask=mask(0, 4, 6, 12))],
          thorough=[run("C10_hist", covers=["done"], store=0, k=4, snaps=1, opmask=mask(0, 1, 4, 6, 7, 8, 10, 11, 12), budget=3000),
                    run("C10_hist", covers=["done"], store=1, k=4, snaps=2, opmask=mask(0, 1, 2, 3, 4, 6, 8, 12), budget=3000)],
          outside=["histories longer than K = 3..4 steps", "more than two stores sharing the free lists"],
